@@ -71,6 +71,7 @@ const (
 	cProbeSkipped
 	cReferenceCompared
 	cDeadlinePassedStatus
+	cOverLimitRefused
 	numCounters
 )
 
@@ -105,6 +106,7 @@ var counterNames = [...]string{
 	cStarOverlap: "reach.kind_star_overlap_unpredicted", cProbeSkipped: "reach.probe_not_judged_after_unpredicted_verdict",
 	cReferenceCompared: "reach.final_state_compared_with_fresh_registration",
 	cDeadlinePassedStatus: "reach.final_status_after_deadline_passed_mid_call",
+	cOverLimitRefused: "reach.inflated_message_over_limit_refused_whole",
 }
 
 func counterName(i int) string {
